@@ -64,7 +64,7 @@ pub fn replay(case: &Value) -> Vec<Violation> {
         "issue" | "pipeline" => crate::pipeline::replay_case(case),
         "weak_selection" => c06::replay_weak(case),
         "reused_holder" => c06::replay_reused(case),
-        "reused_issuer" => c05::replay_reused(case),
+        "reused_issuer" | "reused_issuer_sizes" => c05::replay_reused(case),
         "c12_order" => c12::replay_order(),
         "c12_history" => c12::replay_history(case),
         "c12_run_dup" => c12::replay_run_dup(case),
